@@ -157,8 +157,14 @@ func (vfs *MemFS) Chown(name string, uid, gid int) error {
 // The underlying file system may truncate or round the values to a
 // less precise time unit.
 // If there is an error, it will be of type *PathError.
-func (vfs *MemFS) Chtimes(name string, _, mtime time.Time) error {
+func (vfs *MemFS) Chtimes(name string, atime, mtime time.Time) error {
 	const op = "chtimes"
+
+	if atime.IsZero() && mtime.IsZero() && vfs.OSType() != avfs.OsWindows {
+		// A zero time.Time value leaves the corresponding file time unchanged :
+		// when both are omitted Linux does not even look the file up.
+		return nil
+	}
 
 	child, unlock, err := vfs.lockedNode(name, slmEval)
 	if err != nil {
